@@ -63,6 +63,16 @@ class _G:
     def op(self):
         return self.draw(st.sampled_from(OPS))
 
+    def twin(self, op, lam_text, a):
+        """a lambda with the same argument, names and constants as lam_text (`a * k + m`) but another meaning (`a * m + k`)"""
+        import re
+
+        mm = re.search(rf"{a} \* (\d+) *\+ *(\d+)", lam_text)
+        if not mm:
+            return None
+        k, m = mm.group(1), mm.group(2)
+        return f"lambda {a}: {a} * {m} + {k}" + (" > 0" if op == "Where" else "")
+
 
 def _relayout(draw, line):
     """insert newlines (+ indentation, sometimes a trailing comment) at random token boundaries inside brackets"""
@@ -309,8 +319,12 @@ def _unit(draw):
         o1, o2 = g.op(), g.op()
         a1 = draw(st.sampled_from(ARGS))
         a2 = a1 if draw(st.integers(0, 3)) == 0 else draw(st.sampled_from(ARGS))
-        first = f"ds.{o1}({g.lam(o1, a1)[0]})" if pick == 48 else "ds"
-        body = f"q = {first}.{o2}({kwname[o2]}={g.lam(o2, a2)[0]})"
+        l1 = g.lam(o1, a1)[0]
+        l2 = g.lam(o2, a2)[0]
+        if a1 == a2 and draw(st.booleans()):
+            l2 = g.twin(o2, l1, a1) or l2  # same names and constants, different function
+        first = f"ds.{o1}({l1})" if pick == 48 else "ds"
+        body = f"q = {first}.{o2}({kwname[o2]}={l2})"
         sup = False
         label = "lambda-passed-by-keyword" + (":after-another-call" if pick == 48 else "")
     elif pick in (50, 51):
@@ -320,6 +334,8 @@ def _unit(draw):
         a2 = a1 if draw(st.integers(0, 3)) == 0 else draw(st.sampled_from(ARGS))
         flag = draw(st.booleans())
         l1, l2 = g.lam(o, a1)[0], g.lam(o, a2)[0]
+        if a1 == a2 and draw(st.booleans()):
+            l2 = g.twin(o, l1, a1) or l2
         body = f"FLAG = {flag}\nq = ds.{o}(({l1}) if FLAG else ({l2}))" if pick == 50 else f"FLAG = {flag}\nq = ds.{o}({l1} if FLAG else {l2})"
         sup = False
         label = "lambda-in-arm-of-conditional-expression"
@@ -329,6 +345,8 @@ def _unit(draw):
         a1 = draw(st.sampled_from(ARGS))
         a2 = a1 if draw(st.integers(0, 3)) == 0 else draw(st.sampled_from(ARGS))
         l1, l2 = g.lam(o1, a1)[0], g.lam(o2, a2)[0]
+        if a1 == a2 and draw(st.booleans()):
+            l2 = g.twin(o2, l1, a1) or l2
         body = "def ident(z):\n    return z\n" + (f"q = ds.{o1}(ident({l1})).{o2}({l2})" if pick == 52 else f"q = ds.{o1}({l1}).{o2}(ident({l2}))")
         sup = False
         label = "lambda-through-helper-call-on-the-line"
